@@ -27,6 +27,16 @@ _installed = []   # (cls, name, original attribute)
 CALLS = {}        # (cls name, member) -> number of times the wrapper ran
 
 
+ERRORS = []      # (member key, phase, traceback text): monitor bugs, reported as INCONCLUSIVE
+
+
+def _callback_error(key, phase, exc):
+    import traceback
+
+    if len(ERRORS) < 20:
+        ERRORS.append((str(key), phase, "".join(traceback.format_exception(type(exc), exc, exc.__traceback__, limit=5))[-1200:]))
+
+
 def busy():
     return getattr(_state, "busy", 0) > 0
 
@@ -50,17 +60,26 @@ def _wrap(func, key, pre, post, raised):
         token = None
         if pre is not None:
             with quiet():
-                token = pre(self, args, kwargs)
+                try:
+                    token = pre(self, args, kwargs)
+                except Exception as e:      # a monitor must never disturb the program it observes
+                    _callback_error(key, "pre", e)
         try:
             result = func(self, *args, **kwargs)
         except BaseException as exc:
             if raised is not None and isinstance(exc, Exception):
                 with quiet():
-                    raised(self, args, kwargs, exc, token)
+                    try:
+                        raised(self, args, kwargs, exc, token)
+                    except Exception as e:
+                        _callback_error(key, "raised", e)
             raise
         if post is not None:
             with quiet():
-                post(self, args, kwargs, result, token)
+                try:
+                    post(self, args, kwargs, result, token)
+                except Exception as e:
+                    _callback_error(key, "post", e)
         return result
 
     wrapper.__verif_wrapped__ = func
